@@ -791,14 +791,27 @@ fn info_command(input: PathBuf, verbose: bool, json: bool) -> Result<()> {
     let mut boxes = Vec::new();
     let mut offset = 0;
     while offset + 8 <= buffer.len() {
-        let size = u32::from_be_bytes(buffer[offset..offset + 4].try_into().unwrap()) as usize;
+        let size32 = u32::from_be_bytes(buffer[offset..offset + 4].try_into().unwrap());
         let typ = &buffer[offset + 4..offset + 8];
 
-        if size == 0 {
-            break; // Last box
-        }
+        // ISO/IEC 14496-12 4.2: size 0 means the box extends to the end of the file,
+        // size 1 means a 64-bit size follows the type.
+        let remaining = buffer.len() - offset;
+        let size = match size32 {
+            0 => remaining,
+            1 => {
+                let large = buffer
+                    .get(offset + 8..offset + 16)
+                    .map(|b| u64::from_be_bytes(b.try_into().unwrap()));
+                match large {
+                    Some(large) if large >= 16 => usize::try_from(large).unwrap_or(usize::MAX),
+                    _ => usize::MAX,
+                }
+            }
+            n => n as usize,
+        };
 
-        if offset + size > buffer.len() {
+        if size > remaining {
             boxes.push(serde_json::json!({
                 "type": "invalid",
                 "size": size,
